@@ -81,15 +81,12 @@ func LargestSet(dimensions []Dimensions, limit Dimensions) ([]uint64, Dimensions
 		}
 	}
 	// remove all unwanted indices from the array.
-	j := 0
-	for i := 0; i < len(outIndices)-j; i++ {
-		if outIndices[i] == uint64(len(dimensions)) {
-			j++
-			i--
-			continue
+	keptIndices := outIndices[:0]
+	for _, index := range outIndices {
+		if index != uint64(len(dimensions)) {
+			keptIndices = append(keptIndices, index)
 		}
-		outIndices[i] = outIndices[i+j]
 	}
-	outIndices = outIndices[:len(outIndices)-j]
+	outIndices = keptIndices
 	return outIndices, accumulator
 }
